@@ -188,10 +188,13 @@ check('C07',
 check('C15',
       'Coq theorems (Props/C15.v). Ordering (Flocq, bit-exact binary64 model): the comparison branch\'s diff = (int1-int2)+(frac1-frac2) '
       'has exactly the sign of the exact difference whenever two normalised phases with counts up to 2^52 are equal or at least 2^-53 '
-      'cycles apart, hence all six operators of the model decide the exact order (C15_comparisons). Parsing (exact arithmetic, '
+      'cycles apart, hence all six operators of the model decide the exact order (C15_comparisons). Reductions (same model): argmin / argmax / '
+      'min / max select, for EVERY non-empty list of normalised phases with counts up to 2^52, an element whose exact two-part value is within '
+      '2^-50 cycles of the exact minimum / maximum (C15_argmin, C15_argmax, C15_min, C15_max; hence the exact index when the extremum is '
+      'separated by more than that) although the single-double approx they go through is off by up to half a cycle. Parsing (exact arithmetic, '
       'axiom-free): for every digit string and every exponent the digit shuffling of _parse_string preserves the decimal value '
-      '(count + fraction = digits * 10^e) and the count is integral whenever the exponent is absorbed. PARTIAL: argmin / argmax / argsort / '
-      'min / max / ptp / sort (Model/PhaseOrd.v), the float-level parser and from_string, and to_string.do_format incl. CPython\'s '
+      '(count + fraction = digits * 10^e) and the count is integral whenever the exponent is absorbed. PARTIAL: argsort / '
+      'ptp / sort and ties below 2^-50 (Model/PhaseOrd.v), the float-level parser and from_string, and to_string.do_format incl. CPython\'s '
       'float(str), repr(float) and fixed-point formatting (exact-arithmetic models in Model/DecStr.v) are tied to the code by the '
       'correspondence run - every case evaluated by vm_compute and compared index for index, bit for bit, character for character - and '
       'decided by the exact-rational monitor (order of exact values; |parsed - decimal value| <= 2^-52; printed string = exact value '
@@ -200,7 +203,7 @@ check('C15',
       'on every case). Phases closer than 2^-53 but unequal are below the format\'s resolution (not sampled). Known finding D16: rendered '
       'digits are those of the binary64 fraction (<= 1e-16 off at >= 16 decimals or next to a rounding tie). np.sort(phase) / np.ptp(phase) '
       'function forms are not Phase methods and are not sampled (np.sort raises TypeError; np.ptp reduces the single-double cycle).',
-      'machine-checked proof in Coq (Flocq comparison theorem; exact digit-shuffle theorem) + exact correspondence run (vm_compute) + exact-rational monitor',
+      'machine-checked proof in Coq (Flocq comparison and argmin/argmax theorems; exact digit-shuffle theorem) + exact correspondence run (vm_compute) + exact-rational monitor',
       'DESIGN.md 5 C15')
 
 check('C08',
